@@ -13,6 +13,7 @@
                         pulse == a2p s angle /\ angle == p2a s pulse           (DESIGN.md A.4)
      same_config s s' := pin and the four calibration bounds are equal
      reads r q       := r = Ok (SFloat x) for some x == q
+     strace ops s    := all level events of the history ops from s;  sev_ok s e := the invariant read on event e
    Floats are exact rationals; == is equality of rationals. *)
 From Coq Require Import ZArith QArith List Bool.
 From RV Require Import Base.Wire Base.NumM Base.XFloat Gen.C19Motor Host.Servo Host.ActuatorsX Proofs.NumMP Proofs.ServoP Proofs.ActuatorsXP.
@@ -144,6 +145,19 @@ Theorem C19_servo_events : forall s op,
   end.
 Proof. exact ServoP.servo_events. Qed.
 Print Assumptions C19_servo_events.
+
+(* every position any history ever commands - after any earlier history - lies inside both
+   configured ranges and on the configured line (the invariant, read on the level events) *)
+Theorem C19_servo_history_events : forall a s0 pre ops,
+  servo_ctor a = inl s0 -> Forall (sev_ok s0) (strace ops (srun pre s0)).
+Proof. exact ServoP.trace_sev_reachable. Qed.
+Print Assumptions C19_servo_history_events.
+
+(* exactly one level event per successful write/write_us, none for getters and failing calls *)
+Theorem C19_servo_event_count : forall s op,
+  length (sevents (sstep s op)) = if swrites_ok s op then 1%nat else 0%nat.
+Proof. exact ServoP.step_sev_count. Qed.
+Print Assumptions C19_servo_event_count.
 
 (* ====================================================================== *)
 (* IEEE specials as calibration bounds (finding F-C19-servo-nonfinite-bound) *)
